@@ -67,6 +67,11 @@ CHECKS = {
          'Cache coherence of geometric factors after any setter order (bitwise vs fresh object), site budget in runs (non-negative, bounded, consumed by occupancy), per-step sanity of Rcrit/Gcrit/impingement/rate, reference formulas and identities at every visited state.',
          'k values and driving forces are those visited (sample, not sweep); N0 is configuration; the dislocation site type is exempt from N0-based clauses (kawin resolves it through the bulk branch: recorded as an observation in DESIGN.md). Known finding: negative barrier when R* is clamped on grain-boundary sites.',
          'DESIGN.md 4/C14'),
+ 'C18': ('exploration', 1200, 7200,
+         'deterministic simulation of two coupled clocks: host precipitation model with StrengthModel and GrainGrowthModel (nested solver run per host step) attached; alignment/clock invariants after every host step; stand-alone grain-growth histories with taps on normalisation and drag; strength formulas as oracles at visited and generated points',
+         'Coupled: one strength entry per host step and grain clock == host clock after every host step over 1-4 solve calls and both iterators. Grain growth: volume 1 after every step, bounded pre-normalisation drift, monotone mean size without pinning, drag never reverses/accelerates, frozen structure above the freezing level. Strength: non-negativity incl. r < ri and zeros, min rule, total >= parts and monotone, edge/screw limits.',
+         'Strength formulas and drag levels are sampled, not swept; host model uses the analytic backend.',
+         'DESIGN.md 4/C18'),
  'C19': ('exploration', 1500, 7200,
          'deterministic simulation: precipitation worlds with stopping conditions whose thresholds are placed from a pilot run; reference latch/stop model walked over the recorded history; TTP calculator with an in-process fake pool executing in a seeded permutation',
          'Every run: stop step, latches, interpolated times (within the crossing step), -1 for unmet conditions, no un-latching on a further solve; TTP: every table entry equals the reference applied to the run the calculator performed for that temperature, runs start from a reset state, table independent of execution order.',
